@@ -24,6 +24,9 @@ type C06Case struct {
 	// PreMs: simulated milliseconds that had passed in the process when this case started (slow reads of earlier
 	// cases move the process's clock); recorded with a violation so that the replay plan sets the same stage
 	PreMs int64 `json:"pre_ms,omitempty"`
+	// PreCalls: successful NewMnemonic calls made in the process before this case (its age in calls); an explicit
+	// replay makes that many plain calls first
+	PreCalls int `json:"pre_calls,omitempty"`
 }
 
 type C06Job struct {
@@ -87,8 +90,9 @@ type c06run struct {
 	// fresh installs a new device object (hook configuration only). After a call during which reads took simulated
 	// time, a tree with a deadline of its own may have given the read up and left a goroutine behind that still
 	// holds the old device: the next case gets a device of its own, so that such a reader cannot disturb it.
-	fresh func() *dev.Dev
-	taint bool
+	fresh   func() *dev.Dev
+	taint   bool
+	okCalls int
 }
 
 // slowVals: simulated milliseconds a read of the device may take (just past plausible timeouts).
@@ -171,6 +175,17 @@ func (r *c06run) one(c C06Case) {
 		res.Probes["fresh_device_after_a_slow_case"]++
 	}
 	r.taint = false
+	if r.explicit {
+		for r.okCalls < c.PreCalls { // age the process: plain successful calls on a healthy source
+			r.d.Arm(&plan.Dev{Seed: uint64(r.okCalls) + 1})
+			if _, err := bip39.NewMnemonic(12, bip39.Language(2)); err != nil {
+				break
+			}
+			r.okCalls++
+		}
+	} else {
+		c.PreCalls = r.okCalls
+	}
 	if now := int64(zzclock.Offset() / 1e6); r.explicit && c.PreMs > now {
 		zzclock.Jump(c.PreMs - now)
 	} else if !r.explicit {
@@ -188,6 +203,9 @@ func (r *c06run) one(c C06Case) {
 		o.Out = q(m)
 		classify(err, &o)
 	}()
+	if o.IsNil && o.Panic == "" {
+		r.okCalls++
+	}
 	res.Cases++
 	res.ByFamily[c.Family]++
 	res.ByLang[strconv.Itoa(c.Lang)]++
@@ -495,6 +513,19 @@ func RunC06(job *C06Job, d *dev.Dev, fresh func() *dev.Dev) *C06Result {
 				}
 				emit(n, "slow", t)
 			}
+			// memory pressure: a collection cycle (finalizers included) completes while a read is in progress
+			for p := 0; p < need; p += 3 {
+				var a []plan.DevStep
+				if p > 0 {
+					a = append(a, plan.DevStep{D: p})
+				}
+				a = append(a, plan.DevStep{D: 1, G: true})
+				if need-p-1 > 0 {
+					a = append(a, plan.DevStep{D: need - p - 1})
+				}
+				emit(n, "gcread", a)
+			}
+			emit(n, "gcread", []plan.DevStep{{D: need, G: true}})
 		}
 	case "combo":
 		for i := 0; i < job.Count; i++ {
